@@ -207,6 +207,71 @@ def reference_variants(rnd, b):
     return out
 
 
+def debug_name_probes(chk, w2c2, root):
+    """Separately keyed probes (Appendix A) for -g with name sections whose names interact with other symbols or with the
+    assembler. Each case is a valid module; with and without -g (and with -m / -f) the output must compile with gcc and clang and
+    the exports must return the same values.
+      collide-*   : a debug name that spells the C symbol of an export (of another function, of an earlier export of the same
+                    function, of its only export, after escaping), or that is shared by two functions
+      chars-*     : debug names as real toolchains write them (Rust/C++ paths, templates, spaces, punctuation, quotes)"""
+    def mk(names, exports):
+        m = Module()
+        for i in range(3):
+            m.add_func([], [I32], [], [('i32.const', 40 + i)])
+        m.add_func([], [I32], [], [('call', 0), ('call', 1), ('i32.add',), ('call', 2), ('i32.add',)])
+        for nm, idx in exports:
+            m.exports.append((nm, 'func', idx))
+        m.exports.append(('sum', 'func', 3))
+        m.func_names = names
+        return m
+    cases = [
+        ('collide-other-export', mk({1: 'calc'}, [('calc', 0)])),
+        ('collide-own-earlier-export', mk({0: 'calc', 1: 'helper', 2: 'run'}, [('calc', 0), ('run', 2), ('calc_alias', 0)])),
+        ('collide-own-export', mk({0: 'calc'}, [('calc', 0)])),
+        ('collide-after-escaping', mk({1: 'aX2Eb'}, [('a.b', 0)])),
+        ('collide-underscores', mk({1: 'a___b'}, [('a__b', 0)])),
+        ('collide-two-functions', mk({1: 'dup', 2: 'dup'}, [('x', 0)])),
+        ('collide-memory-export-style', mk({1: 'sum'}, [('y', 0)])),
+    ]
+    for i, nm in enumerate(['core::fmt::write', 'f(int&&)', '<T as U>::f', 'a b', 'a%b', 'a,b', 'a;b', 'a#b', 'a@plt', 'a\\b', 'a"b', 'a\nb', 'caf\u00e9', '$x', 'a.b', '0start']):
+        cases.append(('chars-%02d' % i, mk({1: nm, 2: 'plain'}, [('x', 0)])))
+    pdir = os.path.join(root, 'gname')
+    os.makedirs(pdir, exist_ok=True)
+
+    def run_case(item):
+        tag, m = item
+        b = m.encode()
+        plan = e2e.Plan(m)
+        script = 'I 0\n' + ''.join('c 0 %d\n' % plan.fk(e[0]) for e in m.exports)
+        res = []
+        base = None
+        for oi, opts in enumerate(([], ['-g'], ['-g', '-m'], ['-g', '-f', '2'], ['-g', '-p'])):
+            for cc in ('gcc', 'clang'):
+                st, out, _ = e2e.build_and_run(w2c2, b, plan, script, os.path.join(pdir, '%s-%d-%s' % (tag, oi, cc)), cc=cc, cflags=['-O0'], opts=opts)
+                if not opts and cc == 'gcc':
+                    base = (st, out)
+                    if st != 'ok':
+                        return tag, b, [('C09:harness:gname-baseline', '%s: baseline without -g failed: %s' % (tag, str(out)[:300]))], 0
+                    continue
+                if st != 'ok' or out != base[1]:
+                    kind = 'label-collides-with-symbol' if tag.startswith('collide') else 'label-characters'
+                    res.append(('C09:-g:%s:%s' % (kind, tag if tag.startswith('collide') else cc),
+                                'name section %r, exports %s, options %s, %s: %s' % (m.func_names, [e[0] for e in m.exports], ' '.join(opts), cc,
+                                                                                     ('stage %s: %s' % (st, str(out)[-300:])) if st != 'ok' else 'results differ from the translation without -g')))
+        return tag, b, res, 9
+
+    for tag, b, res, n in env.pmap(run_case, cases):
+        chk.ev(n)
+        chk.distinct(('gname', tag))
+        chk.observe('debug_name_probe_' + tag.split('-')[0])
+        seen = set()
+        for key, what in res:
+            if key not in seen:
+                seen.add(key)
+                chk.violation(key, what, {'module.wasm': b})
+    shutil.rmtree(pdir, ignore_errors=True)
+
+
 def main(chk):
     quick = chk.tier == 'quick'
     rnd = env.rng('c09')
@@ -452,6 +517,8 @@ def main(chk):
             chk.violation('C09:gnu-ld:memory.init-of-active-segment', 'module whose memory.init names an active data segment, options %s: %s' % (' '.join(popts), bad),
                           {'module.wasm': pm.encode(), 'cmd.txt': 'w2c2 ' + ' '.join(popts)})
     shutil.rmtree(pd, ignore_errors=True)
+
+    debug_name_probes(chk, w2c2, root)
 
     # ---- h: TSan translator with yields at the hand-off points
     tsan = env.build_translator('tsan', guard=True)
